@@ -293,7 +293,6 @@ func posKeyOf(key string, loopAt map[int]string) string {
 	return loopAt[d]
 }
 
-
 var emptyLitRe = regexp.MustCompile(`^[A-Za-z_][\w\.\[\]\{\}]*\{\}$`)
 
 // isEmptySetValue: a freshly made map or an empty composite literal (of the set type or an alias of it).
